@@ -30,10 +30,34 @@ func (w *World) callSitesOf(fn *ssa.Function) []*ssa.Call {
 func isHelper(fn *ssa.Function) bool { return inlineOK != nil && fn != nil && inlineOK(fn) }
 
 // origin resolves v through helpers (see above). It never fails: an unresolvable value is returned as is.
-func origin(v ssa.Value) ssa.Value {
+func origin(v ssa.Value) ssa.Value { return originIn(nil, v) }
+
+// originIn is origin with the call sites of shared helpers restricted to those inside scope and the helpers it walks
+// through: a helper used by three decoders resolves, for each decoder, to that decoder's call.
+func originIn(scope *ssa.Function, v ssa.Value) ssa.Value {
 	w := theWorld
 	if w == nil {
 		return v
+	}
+	var inScope map[*ssa.Function]bool
+	if scope != nil {
+		inScope = map[*ssa.Function]bool{}
+		for _, g := range withHelpers(scope) {
+			inScope[g] = true
+		}
+	}
+	sitesOf := func(fn *ssa.Function) []*ssa.Call {
+		all := w.callSitesOf(fn)
+		if inScope == nil || len(all) <= 1 {
+			return all
+		}
+		var out []*ssa.Call
+		for _, c := range all {
+			if inScope[c.Parent()] {
+				out = append(out, c)
+			}
+		}
+		return out
 	}
 	for i := 0; i < 16 && v != nil; i++ {
 		switch x := v.(type) {
@@ -42,7 +66,7 @@ func origin(v ssa.Value) ssa.Value {
 			if !isHelper(fn) {
 				return v
 			}
-			sites := w.callSitesOf(fn)
+			sites := sitesOf(fn)
 			if len(sites) != 1 {
 				return v
 			}
